@@ -240,8 +240,11 @@ Attempt ==
                          [] k = "short0" -> 0
                          [] k = "short1" -> 1
                          [] OTHER -> 0
-        IN /\ (k # "ok" /\ k # "ok206") => nf < MaxFaults
-           /\ nf' = IF k \in {"ok", "ok206"} THEN nf ELSE nf + 1
+            \* the regular answer costs nothing of the fault budget (a range starting at the end
+            \* of the content is regularly answered 416)
+            regular == k \in {"ok", "ok206"} \/ (k = "s416" /\ range /\ r.rcur >= N)
+        IN /\ ~regular => nf < MaxFaults
+           /\ nf' = IF regular THEN nf ELSE nf + 1
            /\ now' = t
            /\ hs' = [hs EXCEPT ![h] = IF good THEN [bg.h EXCEPT !.act = @ + 1] ELSE hst2]
            /\ obs' = <<EvAtt(id, h, t, k)>> \o (IF good /\ call.kind # "read" THEN <<EvRet(id, call.kind, TRUE)>> ELSE <<>>)
